@@ -4,7 +4,7 @@ BASE_NOTE = ("Trusted: Coq 8.16.1 kernel (vm_compute for witnesses/examples only
              "the correspondence harness (generators, exact-rational canonicalisation, observation mapping); CPython 3.12/numpy "
              "float64 semantics on the exact (dyadic) input families. The theorems are about the Gallina model; the tie to /repo/src "
              "is the correspondence run on every check (sampled, not proved). ")
-SOURCE_COMMITS = ["bc49a1c", "e3a7f92", "9ed7728", "007ee91", "c29e4c1", "17a47e5", "867807e", "949de5f", "5cc174a", "d64e197", "df761a4", "5d29398", "7a3c11a", "0a21c22", "aeeccf6", "59481a8", "b5aca95", "679700e", "ca2559c", "e1a34e7", "3b48309"]   # "fix:" commits only (no guarded hooks exist)
+SOURCE_COMMITS = ["bc49a1c", "e3a7f92", "9ed7728", "007ee91", "c29e4c1", "17a47e5", "867807e", "949de5f", "5cc174a", "d64e197", "df761a4", "5d29398", "7a3c11a", "0a21c22", "aeeccf6", "59481a8", "b5aca95", "679700e", "ca2559c", "e1a34e7", "3b48309", "af04624", "d811d2c", "621ca2a", "dac1774", "93d477c"]   # "fix:" commits only (no guarded hooks exist)
 NOTES = ("Every check: (1) rebuilds the Coq development incrementally and re-checks coq/Props/<id>.v (grep gate for Admitted/Axiom/...); "
          "(2) runs physt from /repo/src and the extracted model on the same seeded cases; (3) applies the extracted check_<id> to the "
          "implementation's observation. VIOLATION lines carry a replay file; 'no-failing-input-found' is appended when only the "
@@ -121,6 +121,19 @@ CLAIMED = {
          "std()**2 are read after every step and checked by the extracted specification."),
    note=BASE_NOTE + "Data are generated strictly inside the bins (as the property states) with dyadic values/weights so that "
         "float sums are exact; np.median and python min/max are modelled by their documented meaning."),
+ "C12": dict(
+   technique="Coq proof of an ownership invariant and non-interference over arbitrary derive/mutate histories + sharing-graph correspondence",
+   text=("Theorems: if every derivation returns freshly allocated components (binning objects, the three arrays, the metadata "
+         "dict) then for every history all live objects own pairwise disjoint components, a mutation through one object never "
+         "changes what another shows, and derivations do not touch existing objects. The premise is what is checked against "
+         "physt on every run: for 19 derivations x 9 mutations (parent or child, incl. adaptive growth and right operands over "
+         "another range) the harness reads the sharing graph (identity of binning objects / metadata dicts, np.shares_memory of "
+         "frequencies, errors2, missed), snapshots the other object and both operands before/after, checks shape/dtype "
+         "invariants, and for copies equality, class, dtype, metadata, statistics and usability of the empty copy."),
+   note=BASE_NOTE + "Python object semantics are not derived from the source: the footprint of each physt operation is observed "
+        "(sharing graph), the theorem is about the ownership discipline. Cached edge arrays / frozen Statistics / immutable "
+        "metadata values are treated as values, not locations. Sibling members of one HistogramCollection share their binning "
+        "by design (see finding F15 under C18)."),
  "C13": dict(
    technique="Coq proof of the dtype invariant by induction over histories (recorded dtype vs array dtypes as separate fields) + exhaustive table check + extracted-model correspondence",
    text=("C13_dtype_invariant: for every history of fill / fill_n / + / - / * / / / normalize / merge_bins / dtype changes (refused "
